@@ -434,3 +434,48 @@ func TestC06_Exhaustive2(t *testing.T) {
 		}
 	})
 }
+
+// TestC06_Exhaustive3: every schedule with exactly three preemptions placed at yields before file-system / lock /
+// registry statements (the "interesting" sites), for the first two fixed scenarios. Thorough tier only.
+func TestC06_Exhaustive3(t *testing.T) {
+	if !tierThorough() {
+		t.Skip("thorough tier only")
+	}
+	nshards, _ := strconv.Atoi(getenv("VERIF_NSHARDS", "1"))
+	shard, _ := strconv.Atoi(getenv("VERIF_SHARD", "0"))
+	p := prop[schedCase]{property: "C06", check: checkSched, classify: classifySched}
+	p.enumerate(t, func(yield func(schedCase) bool) {
+		idx := 0
+		for _, base := range exhaustiveScenarios[:2] {
+			for first := range base.Tests {
+				sc := base
+				sc.Order = []int{first}
+				dry, _ := runSched(sc, nil, true)
+				type pos struct{ g, k int }
+				var all []pos
+				for g, sites := range dry.sess.Sites {
+					for k, site := range sites {
+						if siteInteresting(site) {
+							all = append(all, pos{g, k + 1})
+						}
+					}
+				}
+				for i := 0; i < len(all); i++ {
+					for j := i + 1; j < len(all); j++ {
+						for l := j + 1; l < len(all); l++ {
+							idx++
+							if idx%nshards != shard {
+								continue
+							}
+							c := sc
+							c.Exact = []vsched.Preempt{{G: all[i].g, K: all[i].k}, {G: all[j].g, K: all[j].k}, {G: all[l].g, K: all[l].k}}
+							if !yield(c) {
+								return
+							}
+						}
+					}
+				}
+			}
+		}
+	})
+}
